@@ -2,10 +2,12 @@ import PubModel.C19.Theorems
 open PubModel.C19
 #print axioms layer_mono
 #print axioms check_iff
+#print axioms check_total
 #print axioms cycle_real
 #print axioms cycle_min
 #print axioms closure_exact
 #print axioms crit_is_reduction
 #print axioms layout_sound
+#print axioms layout_total
 #print axioms reverse_twice
 #print axioms map_reverse_twice
